@@ -52,6 +52,10 @@ func runCase(c *core.Ctx, i int) {
 		return
 	}
 	rng := c.Rng(i)
+	if i%97 == 13 {
+		layoutCaseL2(c, rng)
+		return
+	}
 	switch x := rng.Intn(100); {
 	case x < 58:
 		layoutCase(c, rng, false)
@@ -204,6 +208,24 @@ func (r *Result) line(q *QueryDef, full *Result) string {
 		return fmt.Sprintf("count %d", len(r.Groups))
 	}
 	return r.rowsLine()
+}
+
+// answerLine is rowsLine without the groups that carry no point at all. A real storage leaf
+// reports such an empty group for a series without data in the queried range only when the series
+// shares its shard with one that has data (storage-level behaviour, C11's side of the leaf
+// result); the layout oracle compares the answers' data.
+func (r *Result) answerLine() string {
+	cp := &Result{Err: r.Err, Groups: map[string]map[string][]string{}}
+	for t, fm := range r.Groups {
+		n := 0
+		for _, pts := range fm {
+			n += len(pts)
+		}
+		if n > 0 {
+			cp.Groups[t] = fm
+		}
+	}
+	return cp.rowsLine()
 }
 
 func (r *Result) rowsLine() string {
@@ -935,4 +957,60 @@ func routeCase(c *core.Ctx, rng *rand.Rand) {
 		c.Branch(fmt.Sprintf("route-shards=%d", k))
 	}
 	c.NonTrivial()
+}
+
+// layoutCaseL2: a layout case whose leaves are real storage nodes (level 2). Both the reference
+// and the generated layout run on real nodes; the oracle additionally cross-checks the level-1
+// leaf construction against the real storage leaf (same layout, same answer).
+func layoutCaseL2(c *core.Ctx, rng *rand.Rand) {
+	nSlots := 2 + rng.Intn(5)
+	w := genWorld(rng, simpleTypes, nSlots)
+	q := genQuery(rng, w, false)
+	q.NumSlots = nSlots
+	l := genLayout(rng, w, q, false)
+	// a node the metric's rows never reached does not know the metric (no Declare), like NoMetric
+	// (when nothing at all was written the metric is declared everywhere: "does the metric exist"
+	// is then not a function of written points)
+	for _, leaf := range l.Leaves {
+		leaf.NoMetric = false
+		if len(w.Points) > 0 && len(writtenFields(w, leaf)) == 0 && rng.Intn(2) == 0 {
+			leaf.NoMetric = true
+		}
+	}
+	refL := reference(w)
+	limited := q.Limit < 100
+	ref, err := runLayoutL2(c, w, q, refL, 0)
+	if err != nil {
+		panic(err)
+	}
+	got, err := runLayoutL2(c, w, q, l, 10)
+	if err != nil {
+		panic(err)
+	}
+	l1 := runLayout(c, w, q, l, false, 20)
+	c.Branch("level2")
+	c.Branch(fmt.Sprintf("level2-leaves=%d", len(l.Leaves)))
+	if len(ref.res.Groups) > 0 {
+		c.NonTrivial()
+	}
+	a, b := ref.res.line(q, ref.full), got.res.line(q, got.full)
+	if ref.res.Err == "" && len(ref.res.Groups) > 0 && got.res.Err != "" {
+		c.Fail("layout-turns-answer-into-error", fmt.Sprintf("[level 2] single node answers %q, layout {%s} answers %q", a, describeLayout(l), b))
+		return
+	}
+	if ref.full.answerLine() != got.full.answerLine() || ref.res.Err != got.res.Err {
+		c.Fail("layout-changes-answer", fmt.Sprintf("[level 2] single node: %q (%s) / layout {%s}: %q (%s)", ref.full.answerLine(), ref.res.Err, describeLayout(l), got.full.answerLine(), got.res.Err))
+		return
+	}
+	if ref.full.rowsLine() != got.full.rowsLine() {
+		c.Branch("level2-empty-group-placement") // observation, see answerLine
+	}
+	sameGroups := ref.full.rowsLine() == got.full.rowsLine()
+	if (sameGroups && a != b) || (!sameGroups && !limited && ref.res.answerLine() != got.res.answerLine()) {
+		c.Fail("layout-changes-limited-answer", fmt.Sprintf("[level 2] single node: %q / layout {%s}: %q", a, describeLayout(l), b))
+	}
+	if l1.full.answerLine() != got.full.answerLine() || l1.res.Err != got.res.Err {
+		c.Fail("level1-leaf-differs-from-storage-leaf", fmt.Sprintf("layout {%s}: level 1 %q (%s), level 2 %q (%s)", describeLayout(l),
+			l1.full.answerLine(), l1.res.Err, got.full.answerLine(), got.res.Err))
+	}
 }
